@@ -8,7 +8,7 @@ import common
 import datagen
 import datatie
 
-EXTRA_TARGETS = ["Model/DataQ.vo"]
+EXTRA_TARGETS = ["Model/DataQ.vo", "Model/Lookup.vo"]
 GEN_PREFIXES = []
 ASSUMPTIONS = [
     "inputs that both carry observations agree on them is NOT assumed by the theorems; the falsifier's count check "
